@@ -55,6 +55,12 @@ func verifyFunction(prog *Program, specs *Specs, key string) (res *FuncResult) {
 	defer typeTagMu.Unlock()
 	r.verifyTop()
 	for _, o := range r.obls {
+		// branch conditions that are defined in the obligation's prefix
+		for i, c := range r.conds {
+			if r.condMark[i] <= o.mark {
+				o.splitConds = append(o.splitConds, c)
+			}
+		}
 		if t, ok := r.knownExcl[o.Name]; ok {
 			tt := t
 			o.exclTerm = &tt
@@ -300,15 +306,21 @@ func (r *Run) verifyTop() {
 		}
 	}
 	for i, c := range r.spec.Ensures {
-		g := env.evalBool(c.E)
+		parts := env.evalBoolParts(c.E)
 		if env.err != nil {
 			r.fatal = fmt.Sprintf("%s ensures %d: %v", funcKey(fn), i+1, env.err)
 			return
 		}
 		// ensures are independent of each other: do not let one be assumed for the next
-		o := &Obligation{Name: funcKey(fn) + "/post#" + clauseName(c, i), Kind: "post", Func: funcKey(fn), Props: r.clauseProps(fr, c),
-			Pos: r.posString(fn.Pos()), Text: c.Text, mark: r.ctx.Mark(), hyps: []Term{reach}, goal: g, ctx: r.ctx}
-		r.obls = append(r.obls, o)
+		for pi, g := range parts {
+			name := funcKey(fn) + "/post#" + clauseName(c, i)
+			if len(parts) > 1 {
+				name += fmt.Sprintf(".%d", pi+1)
+			}
+			o := &Obligation{Name: name, Kind: "post", Func: funcKey(fn), Props: r.clauseProps(fr, c),
+				Pos: r.posString(fn.Pos()), Text: c.Text, mark: r.ctx.Mark(), hyps: []Term{reach}, goal: g, ctx: r.ctx}
+			r.obls = append(r.obls, o)
+		}
 	}
 	r.frameCheck(fr, final, reach, penv, env)
 }
@@ -509,6 +521,56 @@ func discharge(o *Obligation, timeoutS int) {
 	}
 	res := solve(o.Name, q, t, !o.Cover)
 	o.Result = &res
+	if o.Cover || res.Status == "unsat" || res.Status == "sat" || len(o.splitConds) == 0 {
+		return
+	}
+	// undecided: case split on (up to five of) the function's branch conditions; every case must be unsat
+	conds := o.splitConds
+	if len(conds) > 5 {
+		conds = conds[:5]
+	}
+	n := 1 << len(conds)
+	total := res.Secs
+	type sub struct {
+		r SolveResult
+	}
+	results := make([]SolveResult, n)
+	var wg sync.WaitGroup
+	sem := make(chan struct{}, 4)
+	for m := 0; m < n; m++ {
+		wg.Add(1)
+		go func(m int) {
+			defer wg.Done()
+			sem <- struct{}{}
+			defer func() { <-sem }()
+			hyps := append([]Term(nil), o.hyps...)
+			for i, c := range conds {
+				if m&(1<<i) != 0 {
+					hyps = append(hyps, c)
+				} else {
+					hyps = append(hyps, Not(c))
+				}
+			}
+			results[m] = solve(fmt.Sprintf("%s.case%d", o.Name, m), o.ctx.Query(o.mark, hyps, o.goal), t, true)
+		}(m)
+	}
+	wg.Wait()
+	all := true
+	for _, sr := range results {
+		total += sr.Secs
+		if sr.Status == "sat" {
+			sr.Secs = total
+			sr.Solver += "+split"
+			o.Result = &sr
+			return
+		}
+		if sr.Status != "unsat" {
+			all = false
+		}
+	}
+	if all {
+		o.Result = &SolveResult{Status: "unsat", Solver: fmt.Sprintf("case-split(%d)", n), Secs: total}
+	}
 }
 
 // Held reports whether the obligation is discharged (or, for covers, not refuted).
